@@ -29,7 +29,7 @@ TASK: produce TWO independent changes to the library's (non-test) source, in dif
   2. still compiles (`go build ./...`) and still passes the existing test suite exactly as the unchanged tree does (run the suite with and without the change and compare; only pre-existing failures/flakes may differ),
   3. needs something SPECIFIC to manifest — a particular interleaving, a fault or panic at a particular point, a multi-step sequence of operations, an unusual input, or two cooperating sites that each look fine alone — NOT something that ordinary use would expose at once,
   4. looks like a plausible refactor, optimisation or "cleanup" a maintainer might really make (not sabotage, no dead code, no comments announcing the bug), and is small (typically 1–30 changed lines).
-Do not modify or delete existing tests, testdata or generated files' inputs. Each change must be independent (each applies alone to the unchanged tree).
+Never use `git stash` (the stash is shared between worktrees and other people are working in sibling worktrees); to go back to the clean tree use `git diff > file` and `git checkout -- .`. Do not modify or delete existing tests, testdata or generated files' inputs. Each change must be independent (each applies alone to the unchanged tree).
 
 For each change also write a DEMONSTRATION: a new Go test file (package-internal or external test, your choice) that FAILS (or hangs until its own timeout, or is flagged by -race if you say so) with the change applied and PASSES on the unchanged tree. Make it deterministic if at all possible (use hooks such as custom resolvers, channels and barriers rather than sleeps; if it is probabilistic, loop enough to make failure near-certain with the change and say so). Verify both directions yourself.
 
